@@ -640,7 +640,11 @@ class ModelBase(object):
         """
         Returns str(value). This should be overridden if this is not enough.
         """
-        return six.binary_type(value)
+        if isinstance(value, six.binary_type):
+            return value
+
+        # bytes(obj) only works for buffers and ints in Python 3
+        return six.text_type(value).encode('utf8')
 
     @classmethod
     def to_unicode(cls, value):
